@@ -67,7 +67,11 @@ class World(BaseWorld):
             if k == 'construct':
                 ops.append({'op': 'construct', 'length': glen(), 'via': ro.choice(['dr', 'dk']), 'value': gen_spacing(ro)})
             elif k in ('set_dr', 'set_dk'):
-                ops.append({'op': k, 'value': gen_spacing(ro)})
+                if ro.random() < 0.2:
+                    # a fine sweep step / a spacing that is tiny in absolute terms: the new value is *close* to the old one
+                    ops.append({'op': 'nudge', 'attr': k[4:], 'rel': ro.choice([1e-6, 3e-6, -5e-7, 1e-9, 2e-5]), 'tiny': ro.random() < 0.3})
+                else:
+                    ops.append({'op': k, 'value': gen_spacing(ro)})
             elif k == 'set_length':
                 ops.append({'op': k, 'value': glen()})
             elif k == 'roundtrip':
@@ -81,6 +85,8 @@ class World(BaseWorld):
                             'typenames': ro.choice(['letters', 'letters', 'int_perm', 'int_rev', 'words'])})
             elif k == 'matrix':
                 ops.append({'op': k})
+            if k == 'ma' and ro.random() < 0.25:
+                ops.append({'op': 'ma_mismatch', 'rank': ro.randrange(1, 4), 'space': ro.choice(['Real', 'Fourier']), 'dn': ro.choice([-1, 1, 2, -3])})
         return {'config': {}, 'ops': ops}
 
     def run(self, case, ctx):
@@ -169,6 +175,40 @@ class World(BaseWorld):
                 if float(d.dk) != float(op['value']):
                     raise Violation('setter_did_not_take_effect', 'set_dk', {'got': d.dk, 'want': op['value']}, step)
                 setters.append('dk')
+            elif name == 'nudge':
+                attr = op['attr']
+                if op.get('tiny'):
+                    # first bring the spacing down to ~1e-10 (legal: units are the user's), then change it by a factor 2
+                    lib(attr + '=', setattr, d, attr, 2e-10)
+                    new = 4e-10
+                else:
+                    new = float(getattr(d, attr)) * (1.0 + op['rel'])
+                lib(attr + '=', setattr, d, attr, new)
+                if float(getattr(d, attr)) != new:
+                    raise Violation('setter_did_not_take_effect', 'set_' + attr, {'got': float(getattr(d, attr)), 'want': new}, step)
+                setters.append(attr)
+                ctx.probe('spacing_nudged')
+            elif name == 'ma_mismatch':
+                # a MatrixArray whose length does not fit this Domain: the transform must fail *and leave array and flag alone*
+                rk = op['rank']
+                Nm = max(1, N + op['dn']) if N + op['dn'] != N else N + 1
+                rs = np_rng(seed, 'mam', step)
+                data = rs.uniform(-1, 1, size=(Nm, rk, rk))
+                data = (data + np.transpose(data, (0, 2, 1))) / 2.0
+                M = lib('MatrixArray()', pp.MatrixArray, length=Nm, rank=rk, data=np.copy(data), space=getattr(pp.Space, op['space']), types=list('ABCD'[:rk]))
+                fn = d.MatrixArray_to_fourier if op['space'] == 'Real' else d.MatrixArray_to_real
+                try:
+                    fn(M)
+                    failed = False
+                except Exception:
+                    failed = True
+                if failed:
+                    if np.asarray(M.data).tobytes() != data.tobytes() or M.space != getattr(pp.Space, op['space']):
+                        raise Violation('failed_transform_modified_array_or_flag', 'ma_mismatch', {
+                            'flag_now': str(M.space), 'data_changed': np.asarray(M.data).tobytes() != data.tobytes()}, step)
+                    ctx.probe('failed_transform_left_array_alone')
+                else:
+                    ctx.probe('mismatched_length_transform_did_not_fail')
             elif name == 'set_length':
                 dr0 = float(d.dr)
                 lib('length=', setattr, d, 'length', op['value'])
@@ -310,7 +350,7 @@ class World(BaseWorld):
     def expected_probes(self, tier):
         return ['dk_ctor', 'dr_ctor', 'length_set_after_dk', 'length_set_after_dr', 'nonpow2', 'decimal_spacing', 'refused_transform',
                 'two_setter_kinds', 'roundtrip', 'linearity', 'sine_matrix_oracle', 'ma_to_fourier', 'ma_to_real', 'ma_integer_type_names',
-                'ma_data_layout_F', 'ma_data_layout_T', 'ma_data_layout_block']
+                'ma_data_layout_F', 'ma_data_layout_T', 'ma_data_layout_block', 'spacing_nudged', 'failed_transform_left_array_alone']
 
     def rule(self):
         return ('Each run = one seed -> construct(length in 1..300 incl. primes and 2^k+-1, or 512..4096; via dr or dk; spacing log-uniform '
